@@ -36,9 +36,12 @@ __CPROVER_requires(NT_UNTOUCHED(addfrom) && NTRANGE(addfrom, 8) && NTINV(addfrom
 __CPROVER_requires(WI_UNTOUCHED(addfrom) && WIRANGE(addfrom, 8) && WIINV(addfrom) && WI_UNTOUCHED(self) && WIRANGE(self, 8) && WIINV(self))
 __CPROVER_requires(VP_OK && !gv_mine && G.v_pops == 0 && G.v_cto == 0 && G.v_adds == 0 && G.v_wpush == 0)
 /* (1) un-staging is accounted on the queue the task was popped from: one decrement of addfrom's new_tasks_count_ per pop,
- *     after the pop (asserted at the decrement), none left owing at exit -- on EVERY path: a popped description that is never
- *     un-counted leaves new_tasks_count_ above the queue length for ever */
-__CPROVER_ensures(addfrom->gs_pops == G.pops && addfrom->gs_decs == G.pops && addfrom->gs_owed == 0 && addfrom->gs_resv == 0 && addfrom->gs_incs == 0 && addfrom->gs_pushes == 0 && NTINV(addfrom))
+ *     after the pop (asserted at the decrement), none left owing at exit ... */
+__CPROVER_ensures(addfrom->gs_pops == G.pops && addfrom->gs_resv == 0 && addfrom->gs_incs == 0 && addfrom->gs_pushes == 0 && NTINV(addfrom))
+__CPROVER_ensures(vx_exc == 0 ==> (addfrom->gs_decs == G.pops && addfrom->gs_owed == 0))
+/* (1x) ... on the exception path too: a popped description that is never un-counted leaves new_tasks_count_ above the queue length
+ *     for ever (the counter == queue length at quiescence invariant is lost) */
+__CPROVER_ensures(vx_exc != 0 ==> (addfrom->gs_decs == G.pops && addfrom->gs_owed == 0))
 /* (2) the receiver's staged queue and the source's pending queue are not touched (unless they are the same object) */
 __CPROVER_ensures(self == addfrom || (NT_UNTOUCHED(self) && NTINV(self) && WI_UNTOUCHED(addfrom) && WIINV(addfrom)))
 /* (3) normal return: every popped description was converted -- one thread object made by the receiver's holder, registered once
